@@ -11,8 +11,8 @@
  *
  * Oracles
  *  S  (every stream) each output, after a prefix of access unit delimiter / parameter set
- *     NAL units the framer may prepend, is a contiguous piece of the input that begins at a
- *     start code; the pieces are in stream order and do not overlap.
+ *     NAL units the framer may prepend, is a contiguous piece of the input; the pieces are
+ *     in stream order and do not overlap.
  *  M  (every stream) the three runs deliver the same sequence of outputs: sizes, octets,
  *     NAL offset attributes, header size, key / random flags, picture number, slice type.
  *  V  (streams of the reference encoder and the recorded unit-test stream) the pieces are
@@ -101,15 +101,13 @@ static void end_run(struct run *r)
 static const char *check_pieces(bool h265, const struct fx *fx, const uint8_t *st, size_t len,
                                 size_t *piece_q, size_t *piece_p, int *bad, char *msg, size_t msgsz)
 {
-    static size_t sstart[4096], shdr[4096];
-    int nsc = es_scan(st, len, sstart, shdr, 4096);
     size_t prev_end = 0;
     for (int i = 0; i < fx->nout; i++) {
         const struct fx_out *o = &fx->out[i];
         *bad = i;
         if (o->size == (size_t)-1) { snprintf(msg, msgsz, "output %d has no readable block", i); return msg; }
         /* candidate prefix lengths */
-        size_t cand[24 + 2]; int nc = 0;
+        size_t cand[24 + 2 + FX_MAXOFF]; int nc = 0;
         cand[nc++] = 0;
         size_t ostart[64], ohdr[64];
         int on = es_scan(o->bytes, o->size, ostart, ohdr, 64);
@@ -122,22 +120,24 @@ static const char *check_pieces(bool h265, const struct fx *fx, const uint8_t *s
                 if (ohdr[k + 1] - ostart[k + 1] == 4) cand[nc++] = ostart[k + 1] + 1;   /* 4-octet start code: also its 3-octet reading */
             }
         }
+        /* and wherever the output's own NAL offset attributes say a NAL unit begins */
+        if (on > 0 && ostart[0] == 0 && ohdr[0] < o->size && is_prefix_type(h265, o->bytes + ohdr[0]))
+            for (int k = 0; k < o->noff; k++) if (o->off[k] < o->size) cand[nc++] = o->off[k];
         size_t best_end = (size_t)-1, best_q = 0, best_p = 0;
         for (int c = 0; c < nc; c++) {
             size_t P = cand[c], L = o->size - P;
-            if (L == 0) continue;
-            for (int k = 0; k < nsc; k++) {
-                for (int v = 0; v < 2; v++) {
-                    size_t q = v ? shdr[k] - 4 : shdr[k] - 3;      /* 3- and 4-octet reading of the start code */
-                    if (v && sstart[k] != q) continue;
-                    if (q < prev_end || q + L > len) continue;
-                    if (memcmp(o->bytes + P, st + q, L)) continue;
-                    if (q + L < best_end) { best_end = q + L; best_q = q; best_p = P; }
-                }
+            if (L == 0 || L > len) continue;
+            /* first occurrence at or after the end of the previous piece. (On a reference stream oracle V pins the
+             * piece to the access unit; on corrupt input the H.265 framer may cut where Annex B has no start code,
+             * because the second NAL header octet does not pass through its scanner, so any offset is accepted.) */
+            for (size_t q = prev_end; q + L <= len; q++) {
+                if (st[q] != o->bytes[P] || memcmp(o->bytes + P, st + q, L)) continue;
+                if (q + L < best_end) { best_end = q + L; best_q = q; best_p = P; }
+                break;
             }
         }
         if (best_end == (size_t)-1) {
-            snprintf(msg, msgsz, "output %d (%zu octets, begins %02x %02x %02x %02x %02x) is not [AUD / parameter sets] + a piece of the input beginning at a start code at or after offset %zu (end of the previous output's piece)",
+            snprintf(msg, msgsz, "output %d (%zu octets, begins %02x %02x %02x %02x %02x) is not [AUD / parameter sets] + a contiguous piece of the input at or after offset %zu (end of the previous output's piece)",
                      i, o->size, o->size > 0 ? o->bytes[0] : 0, o->size > 1 ? o->bytes[1] : 0, o->size > 2 ? o->bytes[2] : 0, o->size > 3 ? o->bytes[3] : 0, o->size > 4 ? o->bytes[4] : 0, prev_end);
             return msg;
         }
@@ -314,6 +314,16 @@ static int run(const uint8_t *tp_, size_t len_, struct vp_report *rep, unsigned 
                 R("]");
             }
             R(" events: sync_acquired=%d fatal=%d error=%d set_flow_def=%d\n", runs[r].fx.n_sync_acq, runs[r].fx.n_fatal, runs[r].fx.n_error, runs[r].fx.n_set_flow_def);
+        }
+    }
+
+    if (render && getenv("C17_DUMP")) {     /* debugging aid: the stream and the outputs of the first run as files */
+        char path[256];
+        snprintf(path, sizeof(path), "%s/stream.bin", getenv("C17_DUMP"));
+        FILE *f = fopen(path, "wb"); if (f) { fwrite(st, 1, len, f); fclose(f); }
+        for (int i = 0; i < runs[0].fx.nout && i < 16; i++) {
+            snprintf(path, sizeof(path), "%s/out%d.bin", getenv("C17_DUMP"), i);
+            f = fopen(path, "wb"); if (f) { if (runs[0].fx.out[i].size != (size_t)-1) fwrite(runs[0].fx.out[i].bytes, 1, runs[0].fx.out[i].size, f); fclose(f); }
         }
     }
 
